@@ -166,6 +166,25 @@ Example C15_ex_reuse :
   end.
 Proof. exact reuse_example. Qed.
 
+(* the idle marker of a NEW connection is connTime + 5 s and the clock is part of the model (LRegIdle, LTick): "opened, silent for 5 s, first
+   request read just as closeIdleConns closes it" is one of the interleavings C15_started_handlers_answered quantifies over; here it is *)
+Example C15_ex_fresh_conn_first_request_is_not_served :
+  (match run (mkCfg false false) init (firstn 13 fresh_conn_trace) with
+   | Some s => map srvClosed (conns s) = [true] /\ map pc (conns s) = [CGotByte]
+   | None => False
+   end) /\
+  (match run (mkCfg false false) init fresh_conn_trace with
+   | Some s => sd s = SReturnedNil /\ map started (conns s) = [0] /\ n_lost s = 0
+   | None => False
+   end) /\
+  (match run (mkCfg false false) init [LServeStart; LAccept 0; LOpenInc 0; LRegIdle 0; LSetDeadline 0; LSend 0; LPeekOk 0;
+                                        LSetStop; LCloseListeners; LAcceptFail 0; LCloseDone; LCloseIdle; LReadServing; LReadOpen;
+                                        LStore0 0; LLoadStop 0; LLookup 0; LReadReq 0] with
+   | Some s => map srvClosed (conns s) = [false] /\ n_handlers s = 1
+   | None => False
+   end).
+Proof. exact fresh_conn_first_request_is_not_served. Qed.
+
 Example C15_ex_no_listener : run (mkCfg false false) init [LSetStop] = Some (set_sd init SReturnedNil).
 Proof. reflexivity. Qed.
 
